@@ -32,8 +32,17 @@ pub fn meta() -> Meta {
 const DIRS: [&str; 3] = ["d1", "d2", "d3"];
 /// Pseudo directory index of the process's working directory (arrangement kind 10).
 const CWD: usize = 9;
+/// Pseudo directory indices of search-list entries that are not directories: a path that does
+/// not exist, and a regular file.  They hold no include file and must simply be passed over.
+const NODIR: usize = 6;
+const AFILE: usize = 7;
 fn dir_name(d: usize) -> &'static str {
-    if d == CWD { "cwd" } else { DIRS[d] }
+    match d {
+        CWD => "cwd",
+        NODIR => "nodir",
+        AFILE => "afile",
+        _ => DIRS[d],
+    }
 }
 
 #[derive(Clone, Copy, Debug, PartialEq, Eq)]
@@ -174,6 +183,7 @@ impl Tree {
             }
         }
         std::fs::create_dir_all(root.join("cwd"))?;
+        std::fs::write(root.join("afile"), "int not_a_directory = 1;\n")?;
         if arr.b_kind == 10 {
             // the same earlier history for the copies in the working directory, reached through
             // the path as written
@@ -349,7 +359,7 @@ impl Configs {
         // paths are shown relative to the scratch tree (its name holds the process id)
         let root_text = tree.root.display().to_string();
         let mut fail = |ctx: &mut Ctx, rule: &str, locus: String, detail: String| ctx.fail(Failure { rule: rule.into(), witness: wit.clone(), locus: format!("{} | main={} mode={:?}", locus, mname, mode).replace(&root_text, "<tree>"), detail: detail.replace(&root_text, "<tree>"), case: case.clone() });
-        let dirs: Vec<PathBuf> = list.iter().map(|d| tree.root.join(DIRS[*d])).collect();
+        let dirs: Vec<PathBuf> = list.iter().map(|d| tree.root.join(dir_name(*d))).collect();
         // the effective list of the reference resolver
         let effective: Option<Vec<usize>> = match mode {
             Mode::Explicit => Some(list.to_vec()),
@@ -550,7 +560,19 @@ impl Space for Configs {
                 return;
             }
         };
-        for list in search_lists(self.ndirs) {
+        let mut lists = search_lists(self.ndirs);
+        if self.nfiles == 2 {
+            // entries that are not directories, before and between the real ones
+            for l in search_lists(self.ndirs).into_iter().filter(|l| !l.is_empty()) {
+                let mut a = vec![NODIR];
+                a.extend(l.iter().copied());
+                lists.push(a);
+                let mut b = l.clone();
+                b.insert(1.min(b.len()), AFILE);
+                lists.push(b);
+            }
+        }
+        for list in lists {
             for mode in [Mode::Explicit, Mode::Env, Mode::Neither] {
                 if mode == Mode::Neither && !list.is_empty() {
                     continue;
